@@ -937,6 +937,9 @@ def check_ctor_case(ctx, case):
         elif what == 'currents':
             DCMotor(name='m', inertia_moment=J, no_load_speed=U.AngularSpeed(1, 'rad/s'), maximum_torque=U.Torque(1, 'Nm'),
                     no_load_electric_current=U.Current(x[0], case['u'][0]), maximum_electric_current=U.Current(x[1], case['u'][1]))
+        elif what == 'lone_current':
+            DCMotor(name='m', inertia_moment=J, no_load_speed=U.AngularSpeed(1, 'rad/s'), maximum_torque=U.Torque(1, 'Nm'),
+                    **{case['which']: U.Current(x, case['u'])})
         elif what == 'teeth':
             cls = case.get('cls', 'SpurGear')
             if cls == 'SpurGear':
@@ -998,6 +1001,11 @@ def run_ctor_checks(ctx):
             cases.append({'t': 'ctor', 'what': 'currents', 'x': [float(F(i0_si) / SI['Current'][u0]), float(F(imax_si) / SI['Current'][u1])],
                           'u': [u0, u1], 'ok': 0 <= f < 1})
         cases.append({'t': 'ctor', 'what': 'currents', 'x': [0.1, 0.0], 'u': [u0, u0], 'ok': False})
+        # only one of the two currents given: each is still validated on its own (maximum > 0, no-load >= 0)
+        for x in (0, 0.0, -0.0, -rng.uniform(0.01, 5), rng.uniform(0.01, 5)):
+            cases.append({'t': 'ctor', 'what': 'lone_current', 'which': 'maximum_electric_current', 'x': x, 'u': u1, 'ok': x > 0})
+        for x in (-rng.uniform(0.01, 5), rng.uniform(0.01, 5), 0.0):
+            cases.append({'t': 'ctor', 'what': 'lone_current', 'which': 'no_load_electric_current', 'x': x, 'u': u0, 'ok': x >= 0})
         cases.append({'t': 'ctor', 'what': 'currents', 'x': [0.1, -1.0], 'u': [u0, u0], 'ok': False})
         # the tabulated minimum is read from the Lewis-factor table file itself, not from the package's constant
         from harness.gears_h import read_csv
